@@ -50,7 +50,11 @@ class Scheme(object):
         if self.numfmt == "float":
             return repr(float(v))
         if self.numfmt == "locals" and v not in (0, 1):
-            nm = "K%d" % len(loc) if v not in loc.values() else [k for k, w in loc.items() if w == v][0]
+            # the first extra locals carry names that the math / numpy star-imports of the generated code also export:
+            # the user's value must win (documented: "additional variables ... and their desired values")
+            pool = ("e", "pi", "tau", "euler_gamma")
+            nm = (pool[len(loc)] if len(loc) < len(pool) else "K%d" % len(loc)) if v not in loc.values() \
+                else [k for k, w in loc.items() if w == v][0]
             loc[nm] = v
             return nm
         return str(int(v))
